@@ -82,9 +82,16 @@ def run_exhaustive(c, cfgs, clause, orders=3, trace_every=10, lazy=False, parts=
     c.harness()
     samples = []
     for cfg in cfgs:
-        states = c.path("states_%s.ndjson" % cfg)
-        res = c.tlc_must_pass("lachesis", "MC_Lachesis", cfg="MC_Lachesis_" + cfg, edges_out=states, workers=8, timeout=3400)
-        c.log("TLC %s: %d distinct states, %d emitted" % (cfg, res.distinct, res.edges))
+        if cfg.startswith("corpus:"):
+            # behaviours found by TLC simulation of the same model (kept under specs/lachesis/corpus): DAGs with tied
+            # tallies and decisions later than round 2, which random generation and the tiny exhaustive bounds do not reach
+            states = os.path.join(vlib.VERIF, "specs", "lachesis", "corpus", cfg[7:] + ".ndjson")
+            trace_every_cfg = 1
+        else:
+            trace_every_cfg = trace_every
+            states = c.path("states_%s.ndjson" % cfg)
+            res = c.tlc_must_pass("lachesis", "MC_Lachesis", cfg="MC_Lachesis_" + cfg, edges_out=states, workers=8, timeout=3400)
+            c.log("TLC %s: %d distinct states, %d emitted" % (cfg, res.distinct, res.edges))
         with open(states) as f:
             lines = f.readlines()
         n = max(1, min(parts, len(lines) // 200))
@@ -95,7 +102,7 @@ def run_exhaustive(c, cfgs, clause, orders=3, trace_every=10, lazy=False, parts=
             with open(part, "w") as f:
                 f.writelines(lines[i::n])
             tr = c.path("trace_%s_%d.ndjson" % (cfg, i))
-            args = ["lachreplay", "-orders", orders, "-trace-every", trace_every]
+            args = ["lachreplay", "-orders", orders, "-trace-every", trace_every_cfg]
             if lazy or "lazy" in cfg:
                 args.append("-lazy")
             p = c.vh(args + [part, tr], timeout=3400, env={"VERIF_SEED": str(c.seed + i)})
@@ -128,4 +135,7 @@ def run_exhaustive(c, cfgs, clause, orders=3, trace_every=10, lazy=False, parts=
                             replay=dict(line=rej["line"], record=rec, scenario=rej["scenario"][:rej["line"] + 1]))
             total["trace_lines"] += r["validated_lines"]
             total["traces"] = total.get("traces", 0) + r["scenarios"]
+            sp = r.get("stats") or [0, 0, 0, 0]
+            for i, k in enumerate(("spec_ties", "spec_no_quorum_decisions", "spec_atropos_not_first", "spec_round3_decisions")):
+                total[k] = total.get(k, 0) + sp[i]
     return dict(total=total, samples=samples)
